@@ -133,11 +133,12 @@ func f64hex(s string) (float64, bool) {
 }
 
 func (r *runner) init(ws []string) string {
-	if len(ws) != 6 {
+	if len(ws) != 7 {
 		return "bad-op"
 	}
 	slash, ok := f64hex(ws[2])
-	if !ok {
+	spMin, ok2 := u64(ws[6])
+	if !ok || !ok2 {
 		return "bad-op"
 	}
 	setup()
@@ -157,7 +158,7 @@ func (r *runner) init(ws []string) string {
 		}
 		bal[IDOf(n)] = currency.Coin(b)
 	}
-	w, err := newWorld(bal, ws[1] == "1", slash)
+	w, err := newWorld(bal, ws[1] == "1", slash, spMin)
 	if err != nil {
 		panic(err)
 	}
@@ -167,7 +168,7 @@ func (r *runner) init(ws []string) string {
 	return "ok"
 }
 
-func newWorld(bal map[string]currency.Coin, forks bool, slash float64) (*World, error) {
+func newWorld(bal map[string]currency.Coin, forks bool, slash float64, spMin uint64) (*World, error) {
 	w, err := engine.NewWorld(bal, func(sctx *cstate.StateContext) error {
 		for _, f := range []func() error{
 			func() error { return storagesc.InitPartitions(sctx) },
@@ -193,6 +194,7 @@ func newWorld(bal map[string]currency.Coin, forks bool, slash float64) (*World, 
 			return err
 		}
 		conf.StakePool.KillSlash = slash
+		conf.MinStakePerDelegate = currency.Coin(spMin) // min_stake_per_delegate (copied into a new pool's Settings.MinStake)
 		if _, err := sctx.InsertTrieNode(key, conf); err != nil {
 			return err
 		}
@@ -472,6 +474,15 @@ func (r *runner) step(ws []string, prefix []string) string {
 			return "bad-op"
 		}
 		return r.reward(ws[1], pid, v)
+	case "setdata":
+		if len(ws) != 3 {
+			return "bad-op"
+		}
+		pid, ok1 := atoi(ws[1])
+		if !ok1 || (ws[2] != "0" && ws[2] != "1") {
+			return "bad-op"
+		}
+		return r.setdata(pid, ws[2] == "1")
 	case "alloc":
 		if len(ws) != 5 {
 			return "bad-op"
@@ -578,6 +589,24 @@ func (r *runner) reward(kind string, pid int, value uint64) (res string) {
 	return join("ok", r.w.Diff(a, b))
 }
 
+// setdata: the blobber stores data (SavedData > 0) or none; the real trigger is commit_connection (hook, see there).
+func (r *runner) setdata(pid int, has bool) string {
+	a := r.snap
+	n := int64(0)
+	if has {
+		n = 1 << 20
+	}
+	err := r.w.Direct(func(sctx *cstate.StateContext) error {
+		return storagesc.VerifC23SetSavedData(sctx, IDOf(pid), n)
+	})
+	if err != nil {
+		return "fail:" + rewardClass(err)
+	}
+	b := r.w.Snapshot()
+	r.snap = b
+	return join("ok", r.w.Diff(a, b))
+}
+
 // payfees: dry run of the real minersc payFees on a throw-away transaction state; lists the dead miners / sharders
 // whose record it would change.
 func (r *runner) payfees() (res string) {
@@ -648,6 +677,28 @@ func findProvFlags(v interface{}) (kind int, sd, killed, ok bool) {
 		}
 	}
 	return 0, false, false, false
+}
+
+// savedData finds the SavedData field of a decoded blobber record (0 for every other record).
+func savedData(v interface{}) int64 {
+	switch x := v.(type) {
+	case map[string]interface{}:
+		if sd, ok := x["SavedData"]; ok {
+			return int64(U64(sd))
+		}
+		for _, e := range x {
+			if n := savedData(e); n != 0 {
+				return n
+			}
+		}
+	case []interface{}:
+		for _, e := range x {
+			if n := savedData(e); n != 0 {
+				return n
+			}
+		}
+	}
+	return 0
 }
 
 func b01(b bool) string {
@@ -732,7 +783,7 @@ func (r *runner) dump() string {
 			if ok && kd >= 1 && kd <= 5 {
 				kn = Kinds[kd-1]
 			}
-			provs = append(provs, fmt.Sprintf("%d:%s:%s:%s", i, kn, b01(sd), b01(kl)))
+			provs = append(provs, fmt.Sprintf("%d:%s:%s:%s:h%s", i, kn, b01(sd), b01(kl), b01(savedData(tree) > 0)))
 			if m, _ := tree.(map[string]interface{}); m != nil {
 				if sp, _ := m["StakePool"].(map[string]interface{}); sp != nil && (kn == "miner" || kn == "sharder") {
 					spsBy[kn] = append(spsBy[kn], showSP(kn, i, sp, 0, false))
